@@ -681,6 +681,36 @@ func corpusInject(st *Stats) {
 	st.Note("corpus", "inject", ok)
 }
 
+// Fixed projects evaluated on every run: one module whose code refers both to a
+// copied file (asset piece, keyed by SOURCE index) and to several dynamically
+// imported chunks (chunk pieces, keyed by CHUNK index), with paths of different
+// lengths, so that small source and chunk indices coincide inside one slice.
+func targetedMetafile(st *Stats) {
+	for nd := 2; nd <= 5; nd++ {
+		for variant := 0; variant < 3; variant++ {
+			p := &L.Project{Assets: map[string]string{"data0.bin": "BINARY", "img0.png": "PNG"}, Extra: map[string]string{}}
+			a := L.Module{Name: "a.js", Lit: "a", Copies: []string{"data0.bin"}}
+			p.Mods = append(p.Mods, a)
+			for k := 1; k <= nd; k++ {
+				p.Mods = append(p.Mods, L.Module{Name: fmt.Sprintf("d%d.js", k), Lit: fmt.Sprintf("d%d", k)})
+				p.Mods[0].Dynamic = append(p.Mods[0].Dynamic, k)
+			}
+			p.Opt = L.Opt{Entries: []string{"a.js"}, Splitting: true, Format: "esm", EntryNames: "[name]-[hash]", ChunkNames: "c/[name]-[hash]",
+				AssetNames: "assets/a/rather/long/directory/[name]-[hash]"}
+			switch variant {
+			case 1:
+				p.Mods[0].Assets = []string{"img0.png"}
+				p.Opt.PublicPath = "https://cdn.example.com/p/"
+			case 2:
+				p.Mods = append(p.Mods, L.Module{Name: "z.js", Lit: "z", Copies: []string{"data0.bin"}, Dynamic: []int{1, 2}})
+				p.Opt.Entries = append(p.Opt.Entries, "z.js")
+			}
+			ok := checkMetafile(st, fmt.Sprintf("targeted-copy+%d-dynamic-imports/%d", nd, variant), p)
+			st.Note("targeted", fmt.Sprintf("%d/%d", nd, variant), ok)
+		}
+	}
+}
+
 func glueMetafile(r *Rng, n int, st *Stats) {
 	defer func() { st.Extra["exact_section_length_checks"] = sectionChecks }()
 	for i := 0; i < n; i++ {
